@@ -513,6 +513,9 @@ func (w *walker) walkStruct(c *Codec, v reflect.Value, path string, inf Influenc
 			fail("%s: schema member %q does not exist in Go type %v", path, name, t)
 		}
 		seen[name] = true
+		if !f.IsExported() && f.Type.Size() > 0 && !SchemaUnexported[t.String()+"."+name] {
+			fail("%s: the schema names the unexported member %v.%s: list it in SchemaUnexported (generation and fresh copies must treat it as content)", path, t, name)
+		}
 		return v.Field(f.Index[0])
 	}
 	for _, f := range c.Fs {
@@ -583,6 +586,12 @@ func (w *walker) walkStruct(c *Codec, v reflect.Value, path string, inf Influenc
 	}
 	for i := 0; i < t.NumField(); i++ {
 		if !seen[t.Field(i).Name] {
+			if IsHidden(t, i) {
+				// an unexported member the protocol description does not know: it is not transmitted and no part of
+				// the abstract value; whatever an implementation keeps there must not show in any result
+				noteHidden(t, i)
+				continue
+			}
 			fail("%s: Go member %v.%s is absent from the schema line (not even marked not transmitted)", path, t, t.Field(i).Name)
 		}
 	}
